@@ -126,6 +126,8 @@ def make_files(rng, root, count, nbytes, layout):
         suffix = ".bin"
         if layout in ("nested", "mixed") and i % 3 == 1:
             sub = os.path.join(root, "sub%d" % (i % 4), "deep")
+        if layout == "dirlike" and i % 2 == 1:
+            sub = os.path.join(root, "batch%d.bin" % (i % 3))     # a DIRECTORY whose name ends like a sample file
         if layout in ("dat", "mixed") and i % 2 == 1:
             suffix = ".dat"
         os.makedirs(sub, exist_ok=True)
@@ -141,10 +143,16 @@ def make_files(rng, root, count, nbytes, layout):
             data = bytes(data)
         else:
             data = rng.randbytes(nbytes)
-        fn = os.path.join(sub, "s%03d_%d%s" % (i, rng.randrange(1000), suffix))
+        stem = "s%03d_%d" % (i, rng.randrange(1000))
+        if layout == "odd":
+            # legal file names that are awkward for format strings, shells and naive parsers
+            stem = ["unit%%20A_%d", "50%%_duty_%d", "with space %d", "rng%%d-%d", "\u00fcn\u00ef_%d", "a.bin.b_%d", "%%s%%n_%d"][i % 7] % i
+        fn = os.path.join(sub, stem + suffix)
         with open(fn, "wb") as fh:
             fh.write(data)
         files.append(fn)
+    if layout == "dirlike":
+        os.makedirs(os.path.join(root, "empty.dat"), exist_ok=True)
     if layout in ("mixed", "extra"):
         # non-sample files, some larger than the samples and one exactly of another supported sample size
         for nm, size in (("README.txt", 100), ("notes.binx", 6000), ("data.bin.bak", 125000), ("x.csv", 3 * nbytes + 17)):
@@ -212,18 +220,24 @@ def run(tier):
         for cnt in (1, 2, 7, 40):
             for n in (1, 2, 3, 8, 64):
                 scenarios.append((20000, cnt, n, rng.choice(["flat", "nested", "dat", "mixed"]), rng.choice([1, 4, 16]), rng.random() < 0.3))
-        scenarios += [(1000000, 3, 2, "mixed", 16, True), (1000000, 1, 1, "flat", 1, False)]
+        scenarios += [(1000000, 3, 2, "mixed", 16, True), (1000000, 1, 1, "flat", 1, False),
+                      (20000, 6, 2, "dirlike", 4, False), (20000, 9, 1, "dirlike", 1, False), (20000, 14, 3, "odd", 4, "stale"), (1000000, 2, 2, "dirlike", 16, "stale")]
     else:
         scenarios = [(20000, 1, 1, "flat", 1, False), (20000, 7, 3, "mixed", 16, True), (20000, 7, 64, "nested", 4, False), (20000, 2, 2, "dat", 16, False),
                      (20000, 6, 1, "extra", 1, False),      # one worker takes every file in turn on one core
                      (20000, 5, 2, "mixed", 2, False),
+                     (20000, 4, 2, "dirlike", 4, False),    # directories named like samples (batch1.bin/, empty.dat/)
+                     (20000, 7, 3, "odd", 4, "stale"),      # awkward file names; a longer report already exists at the -o path
                      (1000000, 1, 2, "flat", 16, False)]
     groups = []
     metas = []
     for si, (scale, cnt, n, layout, gmp, newdir) in enumerate(scenarios):
         root = os.path.join(work, "in%d" % si)
         files = make_files(rng, root, cnt, scale // 8, layout)
-        rep = os.path.join(work, "out%d" % si, "nested", "report.csv") if newdir else os.path.join(work, "report%d.csv" % si)
+        rep = os.path.join(work, "out%d" % si, "nested", "report.csv") if newdir is True else os.path.join(work, "report%d.csv" % si)
+        if newdir == "stale":
+            with open(rep, "w") as fh:
+                fh.write("stale header\n" + "".join("old_sample_%d.bin, 0.111111, 0.222222\n" % k for k in range(3000)))
         p = vlib.run_bin(tool, ["-i", root, "-o", rep, "-n", str(n)], timeout=900 if scale > 20000 else 120, env={"GOMAXPROCS": str(gmp)}, cwd=work)
         hang = bool(getattr(p, "timed_out", False))
         if hang:
